@@ -9,7 +9,7 @@ randomS), 2..5 increasing radii, factor f, position mode. Oracle: (1) structural
 import numpy as np
 
 from vlib.core import Result, pmap, merge_results, run_hypothesis, quiet, load_known
-from vlib.grids import sphere_grid, full_grid, position_grid, dense
+from vlib.grids import snapshot, scribble, sphere_grid, full_grid, position_grid, dense
 
 _ROT = {}
 
@@ -63,18 +63,30 @@ def judge_one(case, f):
     try:
         fg = full_grid(b, o, t, factor=f, cartesian=case["cartesian"])
         getters = {"adjacency": fg.get_full_adjacency, "borders": fg.get_full_borders, "distances": fg.get_full_distances,
-                   "volumes": lambda: np.asarray(fg.get_total_volumes(), dtype=float),
-                   "array": lambda: np.asarray(fg.get_full_grid_as_array())}
+                   "volumes": fg.get_total_volumes, "array": fg.get_full_grid_as_array}
         order = case.get("order") or sorted(getters)
         with quiet():
-            first = {name: getters[name]() for name in order}       # generated getter order ...
-            again = {name: getters[name]() for name in reversed(order)}   # ... and every getter once more
+            raw = {name: getters[name]() for name in order}       # generated getter order ...
+            first = {name: snapshot(raw[name]) for name in order}
+            # ... then what a caller does with the results: feed the grid's own consumer of these matrices, and edit the
+            # objects it was handed in place ...
+            try:
+                fg.get_full_prefactors()
+            except Exception:
+                pass
+            for name in order:
+                scribble(raw[name])
+            again = {name: snapshot(getters[name]()) for name in reversed(order)}   # ... and every getter once more
+        for d_ in (first, again):
+            d_["volumes"] = np.asarray(d_["volumes"], dtype=float)
+            d_["array"] = np.asarray(d_["array"])
         adj, bor, dis, vol, arr = first["adjacency"], first["borders"], first["distances"], first["volumes"], first["array"]
         for name in order:
             a, b2 = first[name], again[name]
             a, b2 = (dense(a), dense(b2)) if hasattr(a, "tocoo") else (a, b2)
             if a.shape != b2.shape or not np.array_equal(np.asarray(a, dtype=float), np.asarray(b2, dtype=float)):
-                return [("history", f"{name} of the same full grid differ between the first and a second query (order {order})")]
+                return [("history", f"{name} of the same full grid differ between the first query and a second one made after "
+                                    f"get_full_prefactors() and after the caller edited the first results in place (order {order})")]
         pg = position_grid(o, t, cartesian=case["cartesian"])
         with quiet():
             P_adj = dense(pg.get_adjacency_of_position_grid()).astype(float)
